@@ -6,6 +6,8 @@
       wrappers, with aliases and `@skip` / `@include` (one combination excepted, see below),
     * typed inline fragments `... on C { fields }` without `@skip` / `@include`, in any selection set,
     * `__typename` (un-aliased, unconditional) in any selection set below the root,
+    * spreads of NAMED FRAGMENTS USED AS MIXINS (fragment definitions of the mixin tier: `C01Mix.FragsOK`) at classes on
+      exactly the object type of the fragment — in an object-typed selection set or inside `... on T { ...G }` with `G` on `T`,
   nested to any depth (plain-in-abstract-in-plain …), and satisfying the decidable predicate `AbsOK`
   (Proofs/C01AbsDefs.lean):
 
@@ -22,10 +24,13 @@
     (3) `C01_abs`: both together.
 
   What `AbsOK env cn tn sid sel st` demands (each forced by the proof; see C01AbsDefs.lean):
-    * per class (one per variant!): the field nodes `_resolve_selection_set` yields — automatic `__typename`, direct
-      fields, fields of the merged inline fragments — have pairwise distinct response keys and Python names
-      (`setOK`; so `node { id ... on User { id } }` is OUTSIDE the tier), and the class's typename literal is non-empty and
-      contains every runtime type the class stands for;
+    * per class (one per variant!), over ALL its field nodes — automatic `__typename`, direct fields, fields of the merged
+      inline fragments, fields inherited from mixin fragments (`cnodes`) — `dupOK`: a response key reached MORE THAN ONCE is
+      reached by LEAF selections of the same field only (`node { id ... on User { id } }`, `{ ...F id }` with `id` in `F`: the
+      generator emits / inherits the field several times, Python and pydantic keep ONE declaration — `Pyd.mergeDup`, the
+      override along the bases —, the executor MERGES the selections; Proofs/C01Fold.lean characterises the three folds); a
+      composite field or `__typename` owns its key (finding C01-F2); distinct keys have distinct Python names; the class's
+      typename literal is non-empty and contains every runtime type the class stands for;
     * `__typename`: no alias (finding C01-F8), no `@skip/@include` (NEW finding: the class requires the field), no
       sub-selection; not inside an inline fragment; directly at the operation root (where the class has no typename values
       and the field is an ordinary `str`) only if the root type has no field of that name and `String` is the built-in scalar;
@@ -42,7 +47,15 @@
     * marks: the set of marked selection sets (`st.marks ++ needSids`) contains the id of a composite position iff that
       position gets the automatic `__typename` — i.e. no position that must stay unmarked (object position, explicit
       `__typename`) shares its id with a marked one or was marked by an earlier generation (finding C01-F4 region);
-    * class names pairwise distinct and fresh (as in the plain tier).
+    * class names pairwise distinct and fresh (as in the plain tier);
+    * a spread: no `@skip/@include` (C01-F3); the class is on an OBJECT type, stands for that type only, and the fragment is
+      defined on exactly it (a fragment on an interface would be unpacked; a fragment on the object type met below an inline
+      fragment on one of its interfaces is DROPPED by the generator — finding C01-F12, found by this hypothesis); per class
+      WITHIN one fragment definition the response keys are pairwise distinct (`C01Mix.fragOK`).
+  Hypotheses on the environment for part (2) (`GH`, Proofs/C01AbsVal.lean): the fragment definitions are fit to be mixins
+  (`FragsOK env K`), the pydantic environment agrees with the schema on enums, has no class `BaseModel`, holds the classes of
+  every fragment definition, its inheritance fuel covers the fragment nesting, `F` bounds the validation fuel of the fragment
+  classes; the executor fuel is at least `agfuel sel + K`, the validation fuel at least `avneed … + 4 + F`.
 -/
 import AriadneModel.Proofs.C01AbsVal
 import AriadneModel.Proofs.C01Plain
@@ -69,30 +82,32 @@ theorem AbsOK_spec {env : ResultTypes.Env} {cn tn : String} {sid : Nat} {sel : L
 def sentMarks (env : ResultTypes.Env) (cn tn : String) (sel : List Selection) (st : St) : List Nat :=
   st.marks ++ needSids env cn tn sel
 
-/-- **(1) generation succeeds, is the clean generator, and marks exactly `needSids`** -/
-theorem abs_generation (env : ResultTypes.Env) (cn tn : String) (sid : Nat) (sel : List Selection) (st : St)
+/-- **(1) generation succeeds, is the clean generator, and marks exactly `needSids`**; nothing is unpacked -/
+theorem abs_generation (env : ResultTypes.Env) (K : Nat) (hfr : C01Mix.FragsOK env K) (cn tn : String) (sid : Nat)
+    (sel : List Selection) (st : St)
     (h : AbsOK env cn tn sid sel st = true) (fuel : Nat) (hfuel : agfuel sel ≤ fuel) :
     ∃ st', parseTypeDefinition env fuel cn tn sid sel false [] [] st = .ok (aClass env cn tn [] false sel, st') ∧
       st'.publicNames = st.publicNames ++ (aClass env cn tn [] false sel).map (·.name) ∧
-      (∀ m, m ∈ st'.marks ↔ m ∈ sentMarks env cn tn sel st) := by
+      (∀ m, m ∈ st'.marks ↔ m ∈ sentMarks env cn tn sel st) ∧ st'.unpacked = st.unpacked := by
   obtain ⟨h1, h2, h3, h4, h5⟩ := AbsOK_spec h
   have htv : (rflat false env tn sel).any isTnSel = true → ([] : List String).isEmpty = true → rootTnOK env tn = true :=
     fun hany hte => ((classHead_spec h2).2 hany).1 hte
-  obtain ⟨st', hrun, hpn, hB, hmono, _, hneed⟩ := gen_spec env (st.marks ++ needSids env cn tn sel) fuel cn tn [tn] sid sel false []
+  obtain ⟨st', hrun, hpn, hB, hmono, _, hneed, hup⟩ := gen_spec env K hfr (st.marks ++ needSids env cn tn sel) fuel cn tn [tn] sid sel false []
     st hfuel h3 htv (by simpa [autoTn] using h1) (fun m hm => List.mem_append_left _ hm) h4 h5
-  refine ⟨st', hrun, hpn, fun m => ⟨hB m, fun hm => ?_⟩⟩
+  refine ⟨st', hrun, hpn, fun m => ⟨hB m, fun hm => ?_⟩, hup⟩
   rcases List.mem_append.mp hm with h | h
   · exact hmono m h
   · exact hneed m h
 
-/-- **(2) every conformant response to the document as sent is accepted and dumped back** -/
-theorem abs_roundtrip (env : ResultTypes.Env) (cn tn : String) (sid : Nat) (sel : List Selection) (st : St)
+/-- **(2) every conformant response to the document as sent is accepted and dumped back** (`GH`: the global hypotheses on
+    the fragment definitions and the pydantic environment, Proofs/C01AbsVal.lean) -/
+theorem abs_roundtrip (env : ResultTypes.Env) (K F : Nat) (cn tn : String) (sid : Nat) (sel : List Selection) (st : St)
     (h : AbsOK env cn tn sid sel st = true)
-    (penv : Pyd.Env) (hp : PenvOK env penv (aClass env cn tn [] false sel))
+    (penv : Pyd.Env) (G : GH env penv K F) (hcls : ∀ c ∈ aClass env cn tn [] false sel, penv.class? c.name = some c)
     (M : List Nat) (hM : ∀ m, m ∈ M ↔ m ∈ sentMarks env cn tn sel st)
-    (frags : List Fragment) (efuel : Nat) (hef : agfuel sel ≤ efuel) (j : J)
-    (hresp : Exec.respOK env.schema frags efuel tn (Marks.applySels M sel) j = true) (hj : nodupKeys j = true)
-    (vfuel : Nat) (hv : avneed env cn tn sel + 4 ≤ vfuel) :
+    (efuel : Nat) (hef : agfuel sel + K ≤ efuel) (j : J)
+    (hresp : Exec.respOK env.schema env.frags efuel tn (Marks.applySels M sel) j = true) (hj : nodupKeys j = true)
+    (vfuel : Nat) (hv : avneed env cn tn sel + 4 + F ≤ vfuel) :
     ∃ v, Pyd.validate penv vfuel (.cls cn) j = .ok v ∧ J.eqv (Pyd.dump v) j = true := by
   obtain ⟨_, h2, h3, _, _⟩ := AbsOK_spec h
   have hfun : (st.marks ++ needSids env cn tn sel).contains = M.contains := by
@@ -105,11 +120,25 @@ theorem abs_roundtrip (env : ResultTypes.Env) (cn tn : String) (sid : Nat) (sel 
       have hn : m ∉ M := by simpa using hc
       simpa using fun hm => hn (this.mpr hm)
   rw [hfun] at h3
-  exact val_spec env penv frags M hp.agrees hp.noBaseModel efuel cn tn tn [tn] sel [] false j (by simp) h2 h3 hp.has hef
+  exact val_spec env penv M K F G efuel cn tn tn [tn] sel [] false j (by simp) h2 h3 hcls hef
     (by simpa [sent, autoTn] using hresp) hj vfuel hv
 
-/-- **C01, abstract-positions tier** -/
-theorem C01_abs (env : ResultTypes.Env) (cn tn : String) (sid : Nat) (sel : List Selection) (st : St)
+/-- the global hypotheses when there are no fragment definitions -/
+theorem GH.of_nofrags (env : ResultTypes.Env) (penv : Pyd.Env) (hfr : env.frags = []) (ha : ResultLeaf.EnvAgrees env penv)
+    (hbm : penv.class? "BaseModel" = none) (hne : penv.classes ≠ []) : GH env penv 0 0 := by
+  refine ⟨?_, ha, hbm, ?_, ?_, ?_⟩
+  · intro f hf; rw [hfr] at hf; cases hf
+  · intro f hf; rw [hfr] at hf; cases hf
+  · show env.frags.length + 1 + 1 ≤ penv.classes.length + 1
+    rw [hfr]
+    cases hc : penv.classes with
+    | nil => exact absurd hc hne
+    | cons c cs => simp
+  · intro f hf; rw [hfr] at hf; cases hf
+
+/-- **C01, abstract-positions tier** (extended by named fragments used as mixins at object-typed classes) -/
+theorem C01_abs (env : ResultTypes.Env) (K F : Nat) (hfr : C01Mix.FragsOK env K) (cn tn : String) (sid : Nat)
+    (sel : List Selection) (st : St)
     (h : AbsOK env cn tn sid sel st = true) :
     ∃ classes : List ClassDecl,
       -- (1) generation succeeds for every sufficiently large fuel, the root class comes first, and the selection sets that
@@ -119,18 +148,18 @@ theorem C01_abs (env : ResultTypes.Env) (cn tn : String) (sid : Nat) (sel : List
           ∀ m, m ∈ st'.marks ↔ m ∈ sentMarks env cn tn sel st) ∧
       classes.head?.map (·.name) = some cn ∧
       -- (2) every answer of a conformant server to the document as sent is accepted and preserved
-      (∀ (penv : Pyd.Env), PenvOK env penv classes →
-        ∀ (efuel : Nat), agfuel sel ≤ efuel →
-        ∀ (j : J), Exec.respOK env.schema [] efuel tn (Marks.applySels (sentMarks env cn tn sel st) sel) j = true →
+      (∀ (penv : Pyd.Env), GH env penv K F → (∀ c ∈ classes, penv.class? c.name = some c) →
+        ∀ (efuel : Nat), agfuel sel + K ≤ efuel →
+        ∀ (j : J), Exec.respOK env.schema env.frags efuel tn (Marks.applySels (sentMarks env cn tn sel st) sel) j = true →
         nodupKeys j = true →
-        ∀ vfuel, avneed env cn tn sel + 4 ≤ vfuel →
+        ∀ vfuel, avneed env cn tn sel + 4 + F ≤ vfuel →
           ∃ v, Pyd.validate penv vfuel (.cls cn) j = .ok v ∧ J.eqv (Pyd.dump v) j = true) := by
   refine ⟨aClass env cn tn [] false sel, ?_, rfl, ?_⟩
   · intro fuel hfuel
-    obtain ⟨st', hst, _, hm⟩ := abs_generation env cn tn sid sel st h fuel hfuel
+    obtain ⟨st', hst, _, hm, _⟩ := abs_generation env K hfr cn tn sid sel st h fuel hfuel
     exact ⟨st', hst, hm⟩
-  · intro penv hp efuel hef j hresp hj vfuel hv
-    exact abs_roundtrip env cn tn sid sel st h penv hp _ (fun m => Iff.rfl) [] efuel hef j hresp hj vfuel hv
+  · intro penv G hcls efuel hef j hresp hj vfuel hv
+    exact abs_roundtrip env K F cn tn sid sel st h penv G hcls _ (fun m => Iff.rfl) efuel hef j hresp hj vfuel hv
 
 /-! ### a concrete input satisfying `AbsOK`
 
@@ -196,7 +225,9 @@ theorem axPenvOK : PenvOK axEnv axPenv (aClass axEnv "Q" "Query" [] false axSel)
 
 /-- the theorem applies to the example (non-vacuity) … -/
 example : ∃ v, Pyd.validate axPenv 40 (.cls "Q") axResp = .ok v ∧ J.eqv (Pyd.dump v) axResp = true :=
-  abs_roundtrip axEnv "Q" "Query" 1 axSel {} (by decide +kernel) axPenv axPenvOK _ (fun m => Iff.rfl) [] 10
+  abs_roundtrip axEnv 0 0 "Q" "Query" 1 axSel {} (by decide +kernel) axPenv
+    (GH.of_nofrags axEnv axPenv rfl axPenvOK.agrees axPenvOK.noBaseModel (by decide +kernel)) axPenvOK.has
+    _ (fun m => Iff.rfl) 10
     (by decide +kernel) axResp (by decide +kernel) (by decide +kernel) 40 (by decide +kernel)
 
 /-- … and the conclusion, computed: the model of the generator produces these very classes, and the `Post` answer at the
